@@ -160,7 +160,7 @@ func checkSeatLookups(c *Ctx, rule string) {
 			continue
 		}
 		for _, sc := range p.seatScans(f) {
-			name := f.Name()
+			name := fnName(f)
 			atom := seatScanAtoms(f)
 			tests := map[string]bool{}
 			recognised := true
